@@ -18,28 +18,29 @@ import (
 )
 
 type Config struct {
-	MaxObjBytes  int
-	MaxSteps     int   // per path
-	MaxPaths     int   // global
-	MaxDepth     int   // call depth
-	SolverKind   string
-	SolverTO     int // seconds per query
-	Workers      int
-	Seed         int64
-	Verbose      int
+	MaxObjBytes      int
+	MaxSteps         int // per path
+	MaxPaths         int // global
+	MaxDepth         int // call depth
+	SolverKind       string
+	SolverTO         int // seconds per query
+	Workers          int
+	Seed             int64
+	Verbose          int
 	MaxModelsPerSite int
-	Deadline     time.Time
-	Tier         int
-	CexSamples   int
-	NoPortfolio  bool
-	IncTO        int // seconds for the long-lived incremental solver before the one-shot fallback
+	Deadline         time.Time
+	Tier             int
+	CexSamples       int
+	NoPortfolio      bool
+	NoSlice          bool
+	IncTO            int // seconds for the long-lived incremental solver before the one-shot fallback
 }
 
 // ----- path termination sentinels (Go panics unwinding the interpreter)
 
 type unsupported struct{ msg string }
 type pathEnd struct{ kind string } // "infeasible", "assume-false"
-type crashUnwind struct{ id int }   // unwinds to rt.Crashable
+type crashUnwind struct{ id int }  // unwinds to rt.Crashable
 type budgetExceeded struct{ what string }
 
 // interpreted Go panic
@@ -58,36 +59,37 @@ type decision struct {
 }
 
 type Finding struct {
-	Kind    string            `json:"kind"` // panic | assert | unsupported | budget | fpconv | unsafe-oob | blocked | ok
-	Site    string            `json:"site"`
-	Class   string            `json:"class,omitempty"`
-	Msg     string            `json:"msg,omitempty"`
-	Model   map[string]string `json:"model,omitempty"`
-	Observe map[string]string `json:"observe,omitempty"`
-	Stack   []string          `json:"stack,omitempty"`
-	Region  string            `json:"region,omitempty"`
+	Kind    string              `json:"kind"` // panic | assert | unsupported | budget | fpconv | unsafe-oob | blocked | ok
+	Site    string              `json:"site"`
+	Class   string              `json:"class,omitempty"`
+	Msg     string              `json:"msg,omitempty"`
+	Model   map[string]string   `json:"model,omitempty"`
+	Observe map[string]string   `json:"observe,omitempty"`
+	Stack   []string            `json:"stack,omitempty"`
+	Region  string              `json:"region,omitempty"`
 	Alt     []map[string]string `json:"alt,omitempty"`
-	PathID  int               `json:"path"`
-	Count   int               `json:"count"`
+	PathID  int                 `json:"path"`
+	Count   int                 `json:"count"`
 }
 
 type Stats struct {
-	Paths        int
-	PathsOK      int
-	Steps        int64
-	Queries      int
-	SolverS      float64
-	Unknowns     int
-	Forks        int
-	MaxPC        int
-	Obligations  int // symbolic panic/assert checks issued
-	Discharged   int // of those proven impossible (unsat)
-	NontrivialOb map[string]bool
-	Reach        map[string]int
-	Funcs        map[string]bool
-	SolverErrors []string
-	AltQueries   int
-	AltDecided   int
+	Paths         int
+	PathsOK       int
+	Steps         int64
+	Queries       int
+	SolverS       float64
+	Unknowns      int
+	Forks         int
+	MaxPC         int
+	Obligations   int // symbolic panic/assert checks issued
+	Discharged    int // of those proven impossible (unsat)
+	NontrivialOb  map[string]bool
+	Reach         map[string]int
+	Funcs         map[string]bool
+	SolverErrors  []string
+	AltQueries    int
+	AltDecided    int
+	Sliced        int // feasibility queries answered on the variable-connected slice of the path condition
 	FoldedAsserts int // assertions reached whose condition had been reduced to true by term rewriting
 	PathsSymbolic int // completed paths whose path condition constrains at least one symbolic input
 }
@@ -109,51 +111,53 @@ type inputVar struct {
 }
 
 type Interp struct {
-	Cfg    Config
-	Prog   *ssa.Program
-	B      *sym.Builder
-	S      *sym.Solver
-	MS     *sym.Solver // solver holding the last model
-	alts   map[string]*sym.Solver
-	flat   *sym.Solver
-	Sh     *Shared
-	zeroB  *sym.Term
-	nextObj int
+	Cfg          Config
+	Prog         *ssa.Program
+	B            *sym.Builder
+	S            *sym.Solver
+	MS           *sym.Solver // solver holding the last model
+	lastModelRes sym.Result
+	SS           *sym.Solver // solver for sliced feasibility queries
+	alts         map[string]*sym.Solver
+	flat         *sym.Solver
+	Sh           *Shared
+	zeroB        *sym.Term
+	nextObj      int
 
 	// per path
-	prefix   []decision
-	pos      int
-	trace    []decision
-	pc       []*sym.Term
-	inputs   []inputVar
-	inputSet map[string]bool
-	observe  map[string]string
-	obsTerms map[string]*sym.Term
-	steps    int
-	depth    int
-	stack    []*frame
-	globals  map[*ssa.Global]*Obj
-	inited   map[*ssa.Package]int // 1 running, 2 done
-	pathID   int
-	roundings []rounding
-	fs       *FS
+	prefix         []decision
+	pos            int
+	trace          []decision
+	pc             []*sym.Term
+	inputs         []inputVar
+	inputSet       map[string]bool
+	observe        map[string]string
+	obsTerms       map[string]*sym.Term
+	steps          int
+	depth          int
+	stack          []*frame
+	globals        map[*ssa.Global]*Obj
+	inited         map[*ssa.Package]int // 1 running, 2 done
+	pathID         int
+	roundings      []rounding
+	fs             *FS
 	pendingDeferOf *frame
-	rbCache   map[int]rbounds
-	ivCache   map[int]bool
-	curRegion string
-	regions   []region
-	crashDepth int
-	opts     map[string]int64
-	stubs    map[string]*Closure
-	fnObjs   map[*ssa.Function]*Obj
-	typeObjs map[string]*Obj
-	eventBudget int
-	local    Stats
-	mapIDs   int
-	localFuncs map[string]bool
-	carried  map[string]*sym.Term
-	extra    map[string]interface{}
-	eqConst  map[int]*sym.Term // terms the path condition pins to a constant
+	rbCache        map[int]rbounds
+	ivCache        map[int]bool
+	curRegion      string
+	regions        []region
+	crashDepth     int
+	opts           map[string]int64
+	stubs          map[string]*Closure
+	fnObjs         map[*ssa.Function]*Obj
+	typeObjs       map[string]*Obj
+	eventBudget    int
+	local          Stats
+	mapIDs         int
+	localFuncs     map[string]bool
+	carried        map[string]*sym.Term
+	extra          map[string]interface{}
+	eqConst        map[int]*sym.Term // terms the path condition pins to a constant
 }
 
 type region struct {
@@ -314,6 +318,38 @@ func (in *Interp) check(extra *sym.Term) sym.Result {
 	return in.checkPC(in.pc, extra)
 }
 
+// checkSliced decides feasibility of extra under the path condition using only the conjuncts
+// connected to extra through shared variables (constraint independence). Unsat is always sound;
+// Sat is sound because the path condition itself is kept satisfiable (every assumption and branch
+// is checked before it is added). No model is available afterwards: callers that need one use check.
+func (in *Interp) checkSliced(extra *sym.Term) sym.Result {
+	if extra == nil || in.Cfg.NoSlice || len(in.pc) < 40 {
+		return in.check(extra)
+	}
+	sl := in.B.Slice(in.pc, extra)
+	if len(sl)*4 > len(in.pc)*3 {
+		return in.check(extra)
+	}
+	if in.SS == nil {
+		inc := in.Cfg.SolverTO
+		if in.Cfg.IncTO > 0 && in.Cfg.IncTO < inc {
+			inc = in.Cfg.IncTO
+		}
+		s2, err := sym.NewSolver(in.B, in.Cfg.SolverKind, inc)
+		if err != nil {
+			return in.check(extra)
+		}
+		in.SS = s2
+	}
+	save := in.S
+	in.S = in.SS
+	r := in.checkPC(sl, extra)
+	in.S = save
+	in.MS = nil
+	in.local.Sliced++
+	return r
+}
+
 // checkPC asks the primary solver and, on unknown/timeout, the other back ends
 // (portfolio: z3 4.8, z3 5.1, cvc5). The solver that answered holds the model.
 func (in *Interp) checkPC(pc []*sym.Term, extra *sym.Term) sym.Result {
@@ -395,12 +431,12 @@ func (in *Interp) branch(cond *sym.Term) bool {
 		return false
 	}
 	in.pos++
-	r1 := in.check(cond)
+	r1 := in.checkSliced(cond)
 	if r1 == sym.Unsat {
 		in.trace = append(in.trace, decision{Kind: 0, N: 0 | 2})
 		return false
 	}
-	r2 := in.check(in.B.Not(cond))
+	r2 := in.checkSliced(in.B.Not(cond))
 	if r2 == sym.Unsat {
 		in.trace = append(in.trace, decision{Kind: 0, N: 1 | 2})
 		return true
@@ -433,7 +469,7 @@ func (in *Interp) implied(cond *sym.Term) bool {
 	}
 	in.pos++
 	n := 0
-	if in.check(in.B.Not(cond)) == sym.Unsat {
+	if in.checkSliced(in.B.Not(cond)) == sym.Unsat {
 		n = 1
 	}
 	in.trace = append(in.trace, decision{Kind: 4, N: n})
@@ -464,7 +500,7 @@ func (in *Interp) singleton(x *sym.Term) *big.Int {
 		m := in.MS.GetValues([]*sym.Term{probe})
 		if vs, ok := m["probe!s"]; ok {
 			if v, ok := new(big.Int).SetString(vs, 10); ok {
-				if in.check(in.B.Not(in.B.Eq(x, in.B.Int(v)))) == sym.Unsat {
+				if in.checkSliced(in.B.Not(in.B.Eq(x, in.B.Int(v)))) == sym.Unsat {
 					res = v
 				}
 			}
@@ -638,6 +674,7 @@ func (in *Interp) choice(n int) int {
 
 func (in *Interp) model() (map[string]string, bool) {
 	r := in.check(nil)
+	in.lastModelRes = r
 	if r != sym.Sat {
 		return nil, false
 	}
@@ -782,7 +819,11 @@ func (in *Interp) report(kind, site, class, msg string, wantModel bool) {
 	}
 	f.Stack = in.stackStrings()
 	if wantModel {
-		if m, ok := in.model(); ok {
+		m, ok := in.model()
+		if !ok && in.lastModelRes == sym.Unsat && !seen {
+			return // the path turned out to be infeasible (an earlier query had been left undecided)
+		}
+		if ok {
 			f.Model = m
 			f.Observe = in.evalTerms(in.obsTerms, m)
 			for k, v := range in.observe {
@@ -945,6 +986,7 @@ func (in *Interp) flushStats() {
 	st.PathsSymbolic += in.local.PathsSymbolic
 	st.AltQueries += in.local.AltQueries
 	st.AltDecided += in.local.AltDecided
+	st.Sliced += in.local.Sliced
 	for k := range in.local.NontrivialOb {
 		st.NontrivialOb[k] = true
 	}
@@ -977,7 +1019,13 @@ func (in *Interp) runPath(entry *ssa.Function, prefix []decision) {
 		case crashUnwind:
 			in.report("unsupported", "crash outside Crashable", "", "", false)
 		default:
-			panic(r)
+			// an engine fault: reported as unsupported (with the interpreted stack) instead of crashing the run
+			site := "?"
+			if len(in.stack) > 0 {
+				fr := in.stack[len(in.stack)-1]
+				site = fr.fn.String() + " @ " + in.posString(fr.curPos)
+			}
+			in.report("unsupported", site, "", fmt.Sprintf("engine fault: %v", r), false)
 		}
 	}()
 	res, ip := in.callFn(entry, nil, nil)
@@ -1031,6 +1079,15 @@ func (in *Interp) Close() {
 	in.Sh.Stats.SolverErrors = append(in.Sh.Stats.SolverErrors, in.S.Errors...)
 	in.Sh.mu.Unlock()
 	in.S.Close()
+	if in.SS != nil {
+		in.Sh.mu.Lock()
+		in.Sh.Stats.Queries += in.SS.Queries
+		in.Sh.Stats.SolverS += in.SS.Time.Seconds()
+		in.Sh.Stats.Unknowns += in.SS.Unknowns
+		in.Sh.Stats.SolverErrors = append(in.Sh.Stats.SolverErrors, in.SS.Errors...)
+		in.Sh.mu.Unlock()
+		in.SS.Close()
+	}
 	if in.flat != nil {
 		in.alts = map[string]*sym.Solver{"flat": in.flat}
 	}
